@@ -158,6 +158,8 @@ def main(argv=None):
         'violations': len(new_v) + (1 if (not new_v and rc) else 0),
     }
     ev['coverage'].update(res.extra)
+    if ev['level'] != 'proof':
+        ev['coverage']['explanation'] = getattr(mod, 'EXPLANATION', res.rule)
     os.makedirs(common.EVIDENCE, exist_ok=True)
     tmp = os.path.join(common.EVIDENCE, '.%s.%d.tmp' % (prop, os.getpid()))
     json.dump(ev, open(tmp, 'w'), indent=1, ensure_ascii=False, default=str)
